@@ -27,6 +27,12 @@ Coverage audit (item of the property text -> stream that drives it ON THE IMPLEM
   metadata: None / '' / Unicode fields, nested extra, extra None / {}             random, all-k (P,M); api-* (P)
   compression none / gzip / lzf                                   every rt stream (P,M); gzip levels 0/1/4/9, explicit None: api-comp (P)
   larger payload (many chunks)                                    large (P,M)
+  signature SIZE classes: collections mixing empty / tiny / small / medium / large signatures whose lengths sit at
+    2^8 .. 2^17 values (-1, +0, +1), in the orders large last / first / in the middle / several large ones / large
+    directly after empty ones / after a run of medium ones / only large / only small-and-medium / shuffled, k >= 8,
+    x 15 ways of holding the collection (SignatureArray, its slice view / fancy-index result / offset bounds,
+    SignatureList incl. converted / read-only / mutated, Annotated(x) over both, wrapper of a wrapper, user subclasses
+    of AbstractSignatureArray / ReferenceSignatures, a loaded file written again with and without new ids) x filter   size-classes (P)
   int index (Python int, -n..n-1, out of range), slices, index lists, bool mask   observe in every rt stream (P; M for 2 slices + lists)
     NumPy-scalar indices of 8 dtypes, index arrays of other dtypes / strided / byte-swapped / read-only, negative
     entries, tuples, ranges, bool lists / tuples, slices with NumPy bounds, steps +-3 +-7, huge bounds, out-of-range
@@ -50,7 +56,8 @@ Coverage audit (item of the property text -> stream that drives it ON THE IMPLEM
     partial metadata, k up to 32; `info` plain report, `--json --pretty`, `-d DIR info -d -i`      cli-forms (P)
 Not driven: szip (libhdf5 refuses small chunks), bytes ids (come back as str; not "string or integer IDs"), `query -s`
 and ReferenceDatabase.load on a foreign file (need a genome database; same load_signatures call), HDF5 files with a user
-block, n = 0.  The api / foreign2 / cli-forms streams have no model counterpart: predicate only."""
+block, n = 0, single signatures of more than 2^17 + 1 values.  The api / size-classes / foreign2 / cli-forms streams have no
+model counterpart: predicate only."""
 import itertools
 import json
 import os
@@ -65,12 +72,20 @@ RULE = ('rt: collection -> dump_signatures -> load_signatures; non-trivial: >= 2
         'forms (NumPy scalars, tuples, strided, byte-swapped), other writer / reader entry points, keyword forms, gzip levels, '
         'path kinds, reuse (written twice, overwriting, two files open) and NumPy-style index forms on the loaded file; every case '
         'counts as non-trivial (each differs from the default form); judged by the property predicate only (no model).  '
-        'foreign2: non-signature contents x every Python reader and command that opens signature files; predicate only')
+        'foreign2: non-signature contents x every Python reader and command that opens signature files; predicate only.  '
+        'sizes: the same round trip on collections described by signature LENGTHS (empty, tiny, and lengths 2^8 .. 2^17 -1/+0/+1 '
+        'values; sorted distinct k-mer indices derived from the case seed), ordered large last / first / in the middle / several '
+        'large / large after empty / after a run of medium ones / only large / no large / shuffled, k >= 8, held in every container '
+        'kind (array, view, list, wrappers, user subclasses, a loaded file), with and without compression; judged by the property '
+        'predicate only: parameters, ids, metadata, every int index, slices, index lists, bool mask, iteration, each compared '
+        'value for value with the integer type written; non-trivial: >= 2 different lengths')
 TRUSTED = ['h5py / libhdf5: attribute and dataset semantics as modelled in Model/Store.v (typed 1-d arrays, '
            'Empty attributes, UTF-8 variable-length strings refusing NUL and surrogates, zero fill value); '
            'compression filters are transparent',
            'json.dumps / json.loads round-trip on JSON-representable values (sampled on every generated `extra`)',
-           'NumPy: np.asarray of ids, dtype preservation, slicing of 1-d arrays']
+           'NumPy: np.asarray of ids, dtype preservation, slicing of 1-d arrays',
+           'sizes stream: numpy.random.default_rng / cumsum only produce the signatures to write (any sorted array of distinct '
+           'in-range values would do); read-back values are compared with numpy element-wise equality on equal dtypes']
 ASSUMPTIONS = ['collections have >= 1 signature; ids are all-int or all-str; strings contain no NUL and no lone surrogate '
                '(h5py refuses those at write time with ValueError -- checked in the malformed stream)',
                'the sum of signature lengths fits numpy intp',
@@ -259,16 +274,11 @@ def py_slices(n):
 				yield a, b, st
 
 
-def observe(s, case, dteq=None):
-	"""everything the property constrains about a loaded collection, checked against the harness's own
-	description; returns a list of differences (empty = property holds on this case).  `dteq` compares
-	integer types (default: exact dtype equality; the api stream passes `dteq_kind` for collections written
-	in non-native byte order, where only kind and width are constrained)"""
+def observe_head(s, case, eq):
+	"""k-mer parameters, ids, metadata, length and integer type of a loaded collection against the harness's description"""
 	import numpy as np
-	eq = dteq or (lambda a, b: a == b)
 	bad = []
-	sigs = case['sigs']
-	n = len(sigs)
+	n = len(case['sigs'])
 	dt = np.dtype(case['dtype'])
 	kind, idt, ivals = eff_ids(case)
 	m = eff_meta(case)
@@ -289,6 +299,22 @@ def observe(s, case, dteq=None):
 		return bad
 	if not eq(s.dtype, dt):
 		bad.append(f'dtype {s.dtype}')
+	return bad
+
+
+def observe(s, case, dteq=None):
+	"""everything the property constrains about a loaded collection, checked against the harness's own
+	description; returns a list of differences (empty = property holds on this case).  `dteq` compares
+	integer types (default: exact dtype equality; the api stream passes `dteq_kind` for collections written
+	in non-native byte order, where only kind and width are constrained)"""
+	import numpy as np
+	eq = dteq or (lambda a, b: a == b)
+	sigs = case['sigs']
+	n = len(sigs)
+	dt = np.dtype(case['dtype'])
+	bad = observe_head(s, case, eq)
+	if len(s) != n:
+		return bad
 
 	def same(x, want):
 		return isinstance(x, np.ndarray) and eq(x.dtype, dt) and [int(v) for v in x] == want
@@ -908,7 +934,7 @@ def api_file1(case, ids_meta):
 	for f in META_FIELDS:
 		attrs[f] = m[f]
 	attrs['extra'] = None if m['extra'] is None else json.dumps(m['extra'])
-	dsets = dict(values=dict(ints=[v for s in sigs for v in s], dtype=case['dtype']),
+	dsets = dict(values=dict(ints=np.concatenate([np.asarray(s, dtype=case['dtype']) for s in sigs]), dtype=case['dtype']),
 	             bounds=dict(ints=[int(x) for x in np.cumsum([0] + [len(s) for s in sigs])], dtype='i8'),
 	             ids=dict(strs=ivals) if kind == 'str' else dict(ints=ivals, dtype=idt))
 	path = tmp('src') + '.gs'
@@ -1244,6 +1270,158 @@ def k_api(ctx, cases):
 			              model='not modelled (input form / API outside Model/Store.v)')
 
 
+# ---- signature size classes (property predicate only; collections are described by lengths, not by values) ------------
+
+SZ_SHAPES = ('gaps', 'run', 'edges')
+
+
+def sz_cap(k, dtype):
+	"""number of distinct k-mer indices the integer type can hold = the longest possible signature"""
+	import numpy as np
+	return min(4 ** k, int(np.iinfo(np.dtype(dtype)).max) + 1)
+
+
+def sz_sig(k, dtype, size, seed, i, shape):
+	"""signature number i of a case: `size` sorted distinct k-mer indices below 4^k, a function of the arguments only
+	gaps: random gaps over the whole range; edges: the same with the first value 0 and the last one 4^k-1 (or the largest
+	the type holds); run: consecutive indices from a random start"""
+	import numpy as np
+	dt = np.dtype(dtype)
+	top = sz_cap(k, dtype)
+	if size == 0:
+		return np.zeros(0, dtype=dt)
+	if size > top:
+		raise ValueError(f'no signature of {size} values exists for k={k} dtype={dtype}')
+	r = np.random.default_rng([seed, i, size])
+	if shape == 'run':
+		start = int(r.integers(0, top - size, dtype=np.uint64, endpoint=True))
+		vals = np.uint64(start) + np.arange(size, dtype=np.uint64)
+	else:
+		slack = r.integers(0, top // size - 1, size=size, dtype=np.uint64, endpoint=True)
+		vals = np.cumsum(slack, dtype=np.uint64) + np.arange(size, dtype=np.uint64)   # <= size * (top // size) - 1 < top
+		if shape == 'edges':
+			vals[0] = 0
+			vals[-1] = top - 1
+	return vals.astype(dt)
+
+
+def sz_expand(case):
+	return [sz_sig(case['k'], case['dtype'], size, case['seed'], i, case.get('shape', 'gaps')) for i, size in enumerate(case['sizes'])]
+
+
+def sz_diff(x, w, dt):
+	"""None if x is the written signature w in the written integer type, else what differs"""
+	import numpy as np
+	if not isinstance(x, np.ndarray):
+		return f'a {type(x).__name__}'
+	if x.dtype != dt:
+		return f'integer type {x.dtype}, written {dt}'
+	if x.shape != w.shape:
+		return f'{x.shape} values, written {len(w)}'
+	ne = np.flatnonzero(x != w)
+	if len(ne):
+		p = int(ne[0])
+		return f'{len(ne)} of {len(w)} values differ, first at position {p}: read {int(x[p])}, written {int(w[p])}'
+	return None
+
+
+def observe_sizes(s, case, arrs):
+	"""the property predicate of `observe` with NumPy comparisons (signatures here have up to 2^17 + 1 values):
+	parameters, ids, metadata, every int index, out-of-range ints, slices, index lists, bool mask, iteration"""
+	import numpy as np
+	n = len(arrs)
+	dt = np.dtype(case['dtype'])
+	bad = observe_head(s, case, lambda a, b: a == b)
+	if len(s) != n:
+		return bad
+	for i in range(-n, n):
+		d = sz_diff(s[i], arrs[i], dt)
+		if d:
+			bad.append(f'[{i}] (signature {i % n} of lengths {case["sizes"]}) is {d}')
+	for i in (n, -n - 1):
+		try:
+			s[i]
+			bad.append(f'[{i}] did not raise')
+		except IndexError:
+			pass
+
+	def sub(desc, got, want):
+		try:
+			if len(got) != len(want) or got.dtype != dt or got.kmerspec != s.kmerspec:
+				bad.append(f'{desc} has {len(got)} signatures of type {got.dtype}, expected {len(want)} of {dt}')
+				return
+			for j, (x, w) in enumerate(zip(got, want)):
+				d = sz_diff(x, w, dt)
+				if d is None:
+					d = sz_diff(got[j], w, dt)
+				if d:
+					bad.append(f'{desc}: item {j} (length {len(w)}) is {d}')
+		except Exception as e:
+			bad.append(f'{desc}: result unusable: {type(e).__name__}: {e}')
+
+	for a, b, st in [(a, b, None) for a, b in case.get('slices', [])] + [(None, None, None), (None, None, -1), (1, None, 2)]:
+		sub(f'[{a}:{b}:{st}]', s[a:b:st], arrs[slice(a, b, st)])
+	for idx in list(case.get('idx', [])) + [[], list(range(n))[::-1]]:
+		sub(f'[{idx}]', s[np.array(idx, dtype=np.intp)] if not idx else s[idx], [arrs[i] for i in idx])
+	mask = [i % 2 == 0 for i in range(n)]
+	sub('[bool mask]', s[np.array(mask)], [arrs[i] for i in range(n) if mask[i]])
+	it = list(s)
+	if len(it) != n or any(sz_diff(x, w, dt) for x, w in zip(it, arrs)):
+		bad.append('iteration yields other signatures than indexing')
+	return bad
+
+
+def sz_run(c):
+	"""list of differences between what was written and what is read back (empty = the property holds)"""
+	import traceback
+	from gambit.sigs import dump_signatures, load_signatures
+	bad = []
+	keep = []
+	path = tmp('sz') + '.gs'
+	stage = 'constructing the collection'
+	try:
+		arrs = sz_expand(c)
+		full = dict(c, sigs=arrs)
+		obj = api_build(full, keep)
+		stage = 'writing'
+		kw = {}
+		if c.get('compression') is not None:
+			kw['compression'] = c['compression']
+		if c.get('copts') is not None:
+			kw['compression_opts'] = c['copts']
+		dump_signatures(path, obj, **kw)
+		for src, _ in keep:
+			src.close()
+		stage = 'loading'
+		with load_signatures(path) as s:
+			bad += observe_sizes(s, full, arrs)
+	except Exception as e:
+		tb = traceback.extract_tb(e.__traceback__)[-1]
+		bad.append(f'{stage}: {type(e).__name__}: {e} ({os.path.basename(tb.filename)}:{tb.lineno})')
+	finally:
+		for src, p in keep:
+			try:
+				src.close()
+			except Exception:
+				pass
+			if p:
+				_rm(p)
+		_rm(path)
+	return bad
+
+
+def k_sizes(ctx, cases):
+	for c in cases:
+		ctx.case(c, nontrivial=len(set(c['sizes'])) >= 2)
+		m = eff_meta(dict(c, sigs=c['sizes']))
+		if m['extra'] is not None and json.loads(json.dumps(m['extra'])) != m['extra']:
+			continue
+		bad = sz_run(c)
+		if bad:
+			ctx.violation('sizes', c, 'written collection and loaded collection differ: ' + '; '.join(bad[:3]), impl=bad[:8], spec='identical',
+			              model='not modelled (signatures are given by length and seed; Model/Store.v is driven by the rt streams)')
+
+
 # ---- foreign content through every reader (property predicate only) -------------------------------------------
 
 def fx_content(name, seed, path):
@@ -1447,7 +1625,8 @@ def k_foreign2(ctx, cases):
 			              model='not modelled (reader entry point outside Model/Store.v)')
 
 
-KINDS = {'rt': k_rt, 'foreign': k_foreign, 'malformed': k_malformed, 'cli': k_cli, 'api': k_api, 'foreign2': k_foreign2}
+KINDS = {'rt': k_rt, 'foreign': k_foreign, 'malformed': k_malformed, 'cli': k_cli, 'api': k_api, 'foreign2': k_foreign2,
+         'sizes': k_sizes}
 
 # ---- generators ----------------------------------------------------------------------------------------------
 
@@ -1586,6 +1765,8 @@ def generate(ctx):
 	yield from gen_api(ctx, rng)
 	yield from gen_foreign2(ctx, rng)
 	yield from gen_cli2(ctx, rng)
+	# ---- signature size classes around powers of two x order x container kind (property predicate only)
+	yield from gen_sizes(ctx, rng)
 
 
 def real_file_bytes(rng, comp):
@@ -1856,3 +2037,91 @@ def gen_cli2(ctx, rng):
 			meta = {f: v for f, v in meta.items() if rng.random() < 0.5}
 		ctx.count('stream:cli-forms')
 		yield 'cli', dict(k=k, prefix=prefix, genomes=genomes, ids=ids, meta=meta, **form)
+
+
+# ---- generator of the size-classes stream -----------------------------------------------------------------------
+
+SZ_CONTAINERS = (('array', 'none'), ('list', 'none'), ('array', 'annot'), ('list', 'annot'), ('array_view', 'none'), ('array_fancy', 'annot'),
+                 ('array_offset', 'none'), ('list_from_array', 'annot'), ('list_readonly', 'annot_annot'), ('list_mutated', 'none'),
+                 ('custom_plain', 'none'), ('custom_plain', 'annot'), ('array', 'custom_ref'), ('array', 'reloaded'), ('array', 'annot_reloaded'))
+SZ_ORDERS = ('large_last', 'large_first', 'large_middle', 'several_large', 'large_after_empty', 'medium_run', 'only_large', 'no_large', 'shuffled')
+
+
+def sz_sizes(rng, order, cap):
+	"""signature lengths of one collection: classes empty / tiny (1..3) / small (4..600, 2^8..2^11) / medium (2^12, 2^13) /
+	large (2^14..2^17), powers of two taken -1 / +0 / +1 and cut at the longest signature that exists (`cap`)"""
+	def near(e):
+		return min(cap, 2 ** e + rng.choice([-1, 0, 0, 1]))
+
+	def tiny():
+		return rng.choice([1, 1, 2, 3])
+
+	def small():
+		return near(rng.randint(8, 11)) if rng.random() < 0.4 else rng.randint(4, 600)
+
+	def medium():
+		return near(rng.choice([12, 13]))
+
+	def large():
+		return near(rng.choice([14, 14, 14, 15, 15, 16, 17]))
+
+	def filler(lo, hi):
+		return [rng.choice([lambda: 0, tiny, tiny, small, small, medium])() for _ in range(rng.randint(lo, hi))]
+
+	if order == 'large_last':
+		return filler(1, 5) + [large()]
+	if order == 'large_first':
+		return [large()] + filler(1, 5)
+	if order == 'large_middle':
+		return filler(1, 4) + [large()] + filler(1, 4)
+	if order == 'several_large':
+		out = []
+		for _ in range(rng.randint(2, 3)):
+			out += filler(0, 3) + [large()]
+		return out + filler(0, 2)
+	if order == 'large_after_empty':
+		return (filler(0, 2) if rng.random() < 0.5 else []) + [0] * rng.randint(1, 3) + [large()] + filler(0, 3)
+	if order == 'medium_run':
+		return [medium() if rng.random() < 0.8 else tiny() for _ in range(rng.randint(3, 9))] + [large()] + filler(0, 2)
+	if order == 'only_large':
+		return [large() for _ in range(rng.randint(2, 3))]
+	if order == 'no_large':
+		return filler(6, 14)
+	if order == 'shuffled':
+		out = filler(3, 7) + [large() for _ in range(rng.randint(1, 2))]
+		rng.shuffle(out)
+		return out
+	raise ValueError(order)
+
+
+def rsize_case(rng, base, wrap, order):
+	k = rng.choice([8, 8, 9, 11, 12, 16, 17, 31, 32])
+	dtype = index_dtype(k) if rng.random() < 0.7 else rng.choice([t for t in DT if sz_cap(k, t) >= 2 ** 14])
+	sizes = sz_sizes(rng, order, sz_cap(k, dtype))
+	n = len(sizes)
+	a = rng.randrange(n)
+	comp = rng.choice([None, None, 'gzip', 'gzip', 'lzf'])
+	c = dict(k=k, prefix=''.join(rng.choice('ACGT') for _ in range(rng.randint(0, 7))), dtype=dtype, sizes=sizes, order=order,
+	         shape=rng.choice(SZ_SHAPES), seed=rng.randrange(10 ** 6), base=base, wrap=wrap, compression=comp,
+	         idx=[[rng.randrange(-n, n) % n for _ in range(rng.randint(1, 4))]], slices=[[a, rng.randint(a + 1, n)]])
+	if comp == 'gzip' and rng.random() < 0.5:
+		c['copts'] = rng.choice([0, 1, 9])
+	if wrap == 'none':
+		c['container'] = 'array' if base.startswith('array') else 'list'
+		c['ids'] = c['meta'] = None
+	else:
+		c['container'] = 'annot_list'
+		c['meta'] = rmeta(rng)
+		ids = rids(rng, n)
+		if wrap == 'reloaded' and ids is not None and ids['kind'] == 'int' and not ids.get('dtype'):
+			ids['dtype'] = 'i8'      # what the source file holds is what must come back; its ids are a plain dataset
+		c['ids'] = ids
+	return c
+
+
+def gen_sizes(ctx, rng):
+	for _ in range(ctx.pick(3, 20)):
+		for base, wrap in SZ_CONTAINERS:
+			for order in SZ_ORDERS:
+				ctx.count('stream:size-classes')
+				yield 'sizes', rsize_case(rng, base, wrap, order)
